@@ -38,7 +38,7 @@ class Face(ElementBase):
         if points_shape != (4, 3):
             raise FaceCreationError(
                 "Provide exactly 4 points in 3D space",
-                f"Available {points_shape[0]} points, each with {points_shape[1]} coordinates",
+                f"Shape of the given points: {points_shape}",
             )
 
         self.points = [Point(p) for p in points]
